@@ -154,6 +154,77 @@ fn main() {
             }
             0
         }
+        "corpus-undefine" if args.len() >= 4 => {
+            // developer/audit tool: for every k-th identifier of the root on which go-to-definition answers, the
+            // identifier is replaced by an undeclared one; lists the replacements that produce no diagnostic
+            // at the site, grouped by the syntax around the identifier
+            let base = std::path::Path::new(&args[2]);
+            let step: usize = args.get(4).and_then(|s| s.parse().ok()).unwrap_or(1);
+            let mut files: Vec<(String, String)> = Vec::new();
+            let mut stack = vec![base.to_path_buf()];
+            while let Some(d) = stack.pop() {
+                for e in std::fs::read_dir(&d).unwrap().flatten() {
+                    let p = e.path();
+                    if p.is_dir() {
+                        stack.push(p);
+                    } else if p.extension().map(|x| x == "td").unwrap_or(false) {
+                        let rel = p.strip_prefix(base).unwrap().to_string_lossy().to_string();
+                        files.push((format!("{}/{rel}", ws::INC_DIR), std::fs::read_to_string(&p).unwrap_or_default()));
+                    }
+                }
+            }
+            let root = format!("{}/{}", ws::INC_DIR, args[3]);
+            let w = ws::Workspace::new(&files, &root);
+            let a = w.analysis();
+            let text = w.text_of(w.root).cloned().unwrap_or_default();
+            let parse = syntax::parse(&text);
+            let mut sites: Vec<(usize, usize, String)> = Vec::new();
+            for el in parse.syntax_node().descendants_with_tokens() {
+                let Some(tok) = el.as_token() else { continue };
+                if tok.kind() != syntax::syntax_kind::SyntaxKind::Id {
+                    continue;
+                }
+                let (s0, e0) = (u32::from(tok.text_range().start()) as usize, u32::from(tok.text_range().end()) as usize);
+                let Some(d) = a.goto_definition(ws::pos(w.root, s0)) else { continue };
+                // the declaring identifier itself is not a use
+                if d.file == w.root && u32::from(d.range.start()) as usize == s0 {
+                    continue;
+                }
+                let anc: Vec<String> = tok.parent_ancestors().take(4).map(|n| format!("{:?}", n.kind())).collect();
+                sites.push((s0, e0, anc.join("<")));
+            }
+            let mut silent: std::collections::BTreeMap<String, (usize, Vec<String>)> = Default::default();
+            let mut tried = 0;
+            for (k, (s0, e0, ctx)) in sites.iter().enumerate() {
+                if k % step != 0 {
+                    continue;
+                }
+                tried += 1;
+                let mutated = format!("{}Undefined_xyz{}", &text[..*s0], &text[*e0..]);
+                let mut f2 = files.clone();
+                for f in f2.iter_mut() {
+                    if f.0 == root {
+                        f.1 = mutated.clone();
+                    }
+                }
+                let w2 = ws::Workspace::new(&f2, &root);
+                let a2 = w2.analysis();
+                let z = s0 + "Undefined_xyz".len();
+                let hit = a2.diagnostics().get(&w2.root).map(|ds| ds.iter().any(|d| (u32::from(d.location.range.start()) as usize) < z && (u32::from(d.location.range.end()) as usize) > *s0)).unwrap_or(false);
+                if !hit {
+                    let e = silent.entry(ctx.clone()).or_default();
+                    e.0 += 1;
+                    if e.1.len() < 4 {
+                        e.1.push(format!("{}@{s0}", &text[*s0..*e0]));
+                    }
+                }
+            }
+            println!("uses {} tried {tried}", sites.len());
+            for (k, (n, ex)) in silent {
+                println!("{n:5} silent  {k}  e.g. {ex:?}");
+            }
+            0
+        }
         "corpus-outline" if args.len() >= 4 => {
             // developer/audit tool: compares, per file of the workspace, the names of the class / def /
             // defset / multiclass / defm statements that the syntax tree holds outside multiclass bodies
